@@ -2,6 +2,7 @@
    Only statements; every proof is `exact <lemma>`.  [floordiv_rounded] and
    [quantize_fraction] are GENERATED from /repo on every run. *)
 From Coq Require Import ZArith QArith Qabs List Bool.
+From QV Require Import Gen.QuantityImpl Model.Alloc Gen.AllocImpl Proofs.GenAllocEq.
 From QV Require Import Model.Num Model.Rounding Gen.RoundingImpl Model.Quantity
      Proofs.RoundingImplSpec Proofs.RoundingRef Proofs.RoundingUnique
      Proofs.RoundingProofs Proofs.RoundingQ Proofs.QuantityProofs Proofs.C13Proofs.
@@ -95,6 +96,19 @@ Theorem C13_round : forall dm (is_dec : bool) a u nd,
             q_amt r == mk_amt dm (inject_Z n * pow10 (- nd)) u.
 Proof. exact round_spec. Qed.
 Print Assumptions C13_round.
+
+(* THE MODEL IS THE CODE: Quantity.quantize and Quantity.__round__ are
+   re-translated from src/quantity/__init__.py on every run (Gen/AllocImpl.v,
+   translate/alloc.py) and are equal, on all inputs, modes and both
+   representations of the amount, to the model functions the theorems above are
+   about.  The Fraction path calls the GENERATED _quantize_fraction
+   (C13_floordiv_rounded_* are about that one); decimalfp's Decimal.quantize and
+   builtin round are the callee models dec_quantize / py_round (trusted base). *)
+Theorem C13_model_is_translated_code : forall ce dm is_dec p quant rm nd,
+  quantize_impl ce dm is_dec p quant rm = quantize ce dm is_dec p quant rm /\
+  qty_round_impl dm is_dec p nd = Ok (qty_round dm is_dec p nd).
+Proof. intros. split; [apply quantize_impl_eq | apply qty_round_impl_eq]. Qed.
+Print Assumptions C13_model_is_translated_code.
 
 (* non-vacuity: concrete linear units of one class; a tie under every mode *)
 Definition ex_m  := mkUnit 1 7 true (Some 1) None.
